@@ -120,6 +120,46 @@ def poly(e, env=None):
     return None
 
 
+def check_recovered_string(ctx, rep, RULE="U7"):
+    """encoding_to_selfies returns the concatenation of the vocabulary symbol of EVERY position, in order and unmodified:
+    its return value is ``"".join(<vocab[i] for every i>)`` -- not cut, stripped, filtered or otherwise edited (a padding
+    symbol in the middle of a string is a symbol like any other; C13 relies on this for the padded round trip)"""
+    from rules.shared import resolve_local
+    f = ctx.fn(EU + "encoding_to_selfies")
+    vocab = "vocab_itos" if "vocab_itos" in f.params else (f.posparams[1] if len(f.posparams) > 1 else None)
+    rets = [r for r in own_nodes(f.node) if isinstance(r, ast.Return) and r.value is not None]
+    probs = []
+    if not rets or vocab is None:
+        probs.append("no return value / vocabulary parameter")
+    for r in rets:
+        e = resolve_local(f, r.value)
+        if not (isinstance(e, ast.Call) and isinstance(e.func, ast.Attribute) and e.func.attr == "join" and isinstance(e.func.value, ast.Constant)
+                and e.func.value.value == "" and len(e.args) == 1):
+            probs.append("the returned string is %s, not the plain concatenation \"\".join(...) of the symbols" % unparse(r.value)[:50])
+            continue
+        x = resolve_local(f, e.args[0])
+        if isinstance(x, (ast.ListComp, ast.GeneratorExp)):
+            g = x.generators
+            if len(g) != 1 or g[0].ifs:
+                probs.append("symbols are filtered before being joined: positions are dropped")
+            elif not (isinstance(x.elt, ast.Subscript) and isinstance(x.elt.value, ast.Name) and x.elt.value.id == vocab):
+                probs.append("joined elements are not vocabulary look-ups %s[i]" % vocab)
+        elif isinstance(x, ast.Call) and unparse(x.func) == "map" and len(x.args) == 2 and unparse(x.args[0]) in ("%s.__getitem__" % vocab, "%s.get" % vocab):
+            pass
+        elif isinstance(x, ast.Name):
+            # a list filled by an append loop: every append adds a vocabulary look-up, unconditionally
+            apps = [c for c in own_nodes(f.node) if isinstance(c, ast.Call) and isinstance(c.func, ast.Attribute) and c.func.attr == "append"
+                    and isinstance(c.func.value, ast.Name) and c.func.value.id == x.id]
+            if not apps or not all(c.args and isinstance(c.args[0], ast.Subscript) and isinstance(c.args[0].value, ast.Name)
+                                   and c.args[0].value.id == vocab for c in apps):
+                probs.append("joined list %s is not made of vocabulary look-ups" % x.id)
+        else:
+            probs.append("joined value %s is not a look-up of every position" % unparse(x)[:40])
+    rep.ob(RULE, not probs, rets[0] if rets else f.node, f, construct="string recovered by encoding_to_selfies",
+           how="\"\".join of vocab[i] for every position i, returned unmodified", witness="; ".join(sorted(set(probs))) or None,
+           nontrivial=True, key="recovered-string/" + ("ok" if not probs else "edited"))
+
+
 def check_padding(ctx, rep, RULE="U5"):
     f = ctx.fn(EU + "selfies_to_encoding")
     ls = ctx.fn("selfies.utils.selfies_utils.len_selfies")
@@ -536,6 +576,7 @@ def run(ctx, rep):
     rep.ob("U3", not probs, h2b.node, h2b, construct="reshape of flat one-hot vectors",
            how="per vector: divisibility test, rows = len // width, consecutive width-sized slices",
            witness="; ".join(probs) or None, nontrivial=True, key="reshape/" + ("ok" if not probs else probs[0][:40]))
+    check_recovered_string(ctx, rep, "U7")
     rep.floor("U1", 4)
     rep.floor("U2", 4)
     rep.floor("U5", 2)
